@@ -18,6 +18,10 @@ CLAIMS = {
    text="The simulator's decision oracle (ECInstance.validateDecision) is proved to accept only decisions with the right instance, DECIDE step, round 0, signers inside the table with non-zero scaled power, a strong quorum of scaled power (the same predicate as C08) and a verified aggregate over exactly those signers; invalid or unknown-instance decisions are proved to be recorded as errors, Simulation.Run is proved to check the recorded errors and the consensus of a completed instance before going on; certchain.GetCommittee is proved to use the certificate of instance - lookback, the node's rule.",
    note="ECInstance.HasReachedConsensus / HasCompleted are not under contract (their results are used as given). BitField.ForEach is used through a trusted iterator contract (set bits visited in increasing order). " + LEVEL_NOTE_COMMON,
    tech="contract-based deductive verification (own VC generator over go/ssa, SMT)"),
+ "C16": dict(cat="proof", ref="DESIGN.md §6 C16",
+   text="Server.handleRequest is proved to advertise latest+1, to serve the power table of the first requested instance only on request, and to read from the store exactly the inclusive range [first, end] with end-first+1 <= min(limit,256) and end < pending (all request values, including limit 0 and sums that wrap); the client's receive goroutine is proved to hand over a certificate only when it is the next one in sequence and within the limit; Poller.Poll is proved to validate every received certificate against its own current table / instance / network and to call Store.Put only after that validation succeeded, to classify a validation failure as PollIllegal, and never to decrease NextInstance.",
+   note="Byte-for-byte equality of the served certificates with the stored ones rests on Store.GetRange (C09) and the codec (C14, not decided). Store.Put and ValidateFinalityCertificates enter Poll through assumed post-conditions (latest >= stored certificate; next = next + number of certificates), listed in the evidence. select statements and channel receives are abstracted (state havoc'd, received value unconstrained). " + LEVEL_NOTE_COMMON,
+   tech="contract-based deductive verification (own VC generator over go/ssa, SMT)"),
 }
 NA = {
  "C06": "liveness under partial synchrony with real-time bounds over multi-node schedules: no function contract can state it (DESIGN.md §7)",
